@@ -408,7 +408,7 @@ func c03DecodeRun(x *explore.Ctx) {
 func init() {
 	register("C03", &explore.Scenario{
 		ID: "C03", Name: "GPDir write histories: accepted => reads back identically", Level: "model_checking",
-		Rule: "cases = number of writes (2..4; quick 2..3) x every split into sessions; per write deviations: timestamp relative to the previous accepted one (regression, duplicate, +1, max delta 2^32-1, delta overflow 2^32+5, first timestamp again), traffic summary (zero, 2^32-1, 2^32 in each of v4/v6/drops, 2^63), counters; <= bound deviations. A session is abandoned when a write fails (as DBWriter does). state = committed block list; oracle: reopen shows exactly the blocks of completely accepted sessions, unaltered; plainly valid histories must be accepted. non-trivial = histories containing a non-monotone/extreme timestamp or an over-wide count",
+		Rule:  "cases = number of writes (2..4; quick 2..3) x every split into sessions; per write deviations: timestamp relative to the previous accepted one (regression, duplicate, +1, max delta 2^32-1, delta overflow 2^32+5, first timestamp again), traffic summary (zero, 2^32-1, 2^32 in each of v4/v6/drops, 2^63), counters; <= bound deviations. A session is abandoned when a write fails (as DBWriter does). state = committed block list; oracle: reopen shows exactly the blocks of completely accepted sessions, unaltered; plainly valid histories must be accepted. non-trivial = histories containing a non-monotone/extreme timestamp or an over-wide count",
 		Cases: func(t string) int { return 3 * 8 },
 		Bound: func(t string) int {
 			if t == "thorough" {
@@ -421,7 +421,7 @@ func init() {
 	})
 	register("C03.writer", &explore.Scenario{
 		ID: "C03", Name: "DBWriter.Write / WriteBulk histories", Level: "model_checking",
-		Rule: "cases = {Write per block, one WriteBulk} x 2..3 blocks; deviations: timestamp alphabet as C03 (WriteBulk also with cross-day deltas), dropped-packet counts {0, 2^32-1, 2^32, 2^63}; oracle as C03 on the interface's day directory",
+		Rule:     "cases = {Write per block, one WriteBulk} x 2..3 blocks; deviations: timestamp alphabet as C03 (WriteBulk also with cross-day deltas), dropped-packet counts {0, 2^32-1, 2^32, 2^63}; oracle as C03 on the interface's day directory",
 		Cases:    func(t string) int { return 4 },
 		Bound:    func(t string) int { return 3 },
 		Run:      c03WriterRun,
@@ -429,7 +429,7 @@ func init() {
 	})
 	register("C03.decode", &explore.Scenario{
 		ID: "C03", Name: "malformed .blockmeta never crashes Open", Level: "model_checking",
-		Rule: "cases = valid metadata files of 0..3 blocks (written by the real code) x mutation class; every truncation length; every byte position x {00,01,7f,80,ff}; every 8-byte header field x {0,1,n-1,n+1,2^32,2^63,2^64-1,2^61+1}; appended garbage. Oracle: Open returns an error or a self-consistent value; a panic is a violation",
+		Rule:     "cases = valid metadata files of 0..3 blocks (written by the real code) x mutation class; every truncation length; every byte position x {00,01,7f,80,ff}; every 8-byte header field x {0,1,n-1,n+1,2^32,2^63,2^64-1,2^61+1}; appended garbage. Oracle: Open returns an error or a self-consistent value; a panic is a violation",
 		Cases:    func(t string) int { return 4 * 4 },
 		Bound:    func(t string) int { return 0 },
 		Run:      c03DecodeRun,
